@@ -16,7 +16,7 @@ EXTENDS Integers, Sequences, TLC, Json
 OpTypes == {"counter.inc", "map.put", "map.remove", "list.insert", "list.update", "list.delete",
             "doc.put", "doc.rmv", "doc.ins", "doc.upd", "doc.del", "tx", "snapshot.counter", "snapshot.map", "snapshot.list", "snapshot.doc"}
 ValueClasses == {"int", "int8", "int16", "int32", "int64", "uint", "uint8", "uint16", "uint32", "uint64", "bigint", "maxuint64", "negint",
-                 "float32", "float64", "bigfloat", "tinyfloat", "negzero", "bool", "str", "emptystr", "unicode", "emoji", "separators", "escapes", "control", "longstr",
+                 "float32", "f32frac", "nestedbig", "structnum", "float64", "bigfloat", "tinyfloat", "negzero", "bool", "str", "emptystr", "unicode", "emoji", "separators", "escapes", "control", "longstr",
                  "ptrint", "ptrstr", "struct", "map", "nestedmap", "emptymap", "slice", "emptyslice", "mixedslice", "deep"}
 Positions == {"single", "first", "last"}
 \* the identifier the operation carries: small counters; a non-zero era; counters beyond 32 bits
